@@ -182,6 +182,7 @@ func runPoolWorkload(r *gen.R, c poolCfg, emit func(string)) {
 	var started, ended int64
 	var qeCreated, qeExpired int64
 	var qeTimers int64 // query events whose subscription succeeded: each has a timer that fires once
+	var endedQ int64   // callbacks of query requests that ended (such requests may be dropped at expiry)
 
 	body := func(id int, seedv uint64) {
 		rec.add("h.cbstart", "", id)
@@ -239,6 +240,7 @@ func runPoolWorkload(r *gen.R, c poolCfg, emit func(string)) {
 			}
 			id, _ := strconv.Atoi(strings.TrimPrefix(q.Query(), "id="))
 			body(id, uint64(id))
+			atomic.AddInt64(&endedQ, 1)
 		})
 		atomic.StoreInt32(&inCall, 0)
 		atomic.AddInt64(&ended, 1)
@@ -312,6 +314,7 @@ func runPoolWorkload(r *gen.R, c poolCfg, emit func(string)) {
 		var wg sync.WaitGroup
 		var submitted int64
 		atomic.StoreInt64(&ended, 0)
+		atomic.StoreInt64(&endedQ, 0)
 		atomic.StoreInt64(&qsubmitted, 0)
 		atomic.StoreInt64(&qeCreated, 0)
 		atomic.StoreInt64(&qeExpired, 0)
@@ -395,8 +398,9 @@ func runPoolWorkload(r *gen.R, c poolCfg, emit func(string)) {
 				atomic.LoadInt64(&qeExpired) < atomic.LoadInt64(&qeCreated)) && time.Now().Before(deadline) {
 				time.Sleep(200 * time.Microsecond)
 			}
-			if !time.Now().Before(deadline) {
-				// accepted work did not run within ten seconds: the quiescent note below makes that a
+			if !time.Now().Before(deadline) && atomic.LoadInt64(&ended)-atomic.LoadInt64(&endedQ) < atomic.LoadInt64(&submitted) {
+				// accepted callbacks (not counting query requests, which an expiring query event may
+				// drop) did not run within ten seconds: the quiescent note below makes that a
 				// verdict; further workloads would each wait as long and add nothing
 				defer atomic.StoreInt32(&poolHung, 1)
 			}
